@@ -1,4 +1,5 @@
 import OnetVerif.Model.C10
+import OnetVerif.Props.C09
 import OnetVerif.Shapes
 /-! Property C10 — closing a server is clean and safe under concurrent traffic.
 Only property theorems, witnesses, non-vacuity examples and the lemmas they need. -/
@@ -835,6 +836,21 @@ theorem c10_server_close_idempotent (s : Srv) :
   simp [serverClose]
 
 
+/-- **a delivery in flight that uses the database after `Close` fails cleanly**: whatever state the
+server is in, a `Save` / `Load` completes or is refused with an error; after `Server.Close` — once or
+repeatedly — it is refused; it never panics -/
+theorem c10_db_use_after_close_fails_cleanly (s : Srv) :
+    dbUse false s ≠ .panic ∧ dbUse false (serverClose s).1 = .err ∧
+    dbUse false (serverClose (serverClose s).1).1 = .err := by
+  cases s with
+  | mk a b c d e f g => cases f <;> simp [dbUse, serverClose]
+
+/-- the variant that drops the handle after closing it: the late use dereferences nil -/
+theorem c10_db_handle_must_stay :
+    dbUse true (serverClose { started := true, routerUp := true, wsStarted := true, ovClosed := false,
+                              tsClosed := false, dbOpen := true, dbFile := true }).1 = .panic := by
+  decide
+
 /-! ### `Server.Start` / `Server.Close`: the token on `closeitChannel` -/
 
 /-- what holds of the hand-shake in every reachable state of the code as it is -/
@@ -1350,6 +1366,80 @@ example :
     s.stops = [.returned, .returned] ∧ s.serving = false ∧ s.start = .returned ∧ s.shutdowns = 1 ∧
     s.lock = none := by decide
 
+
+/-! ### the connection table with several connections per peer -/
+
+theorem tbl_step_refines (l l' : List C09.Conn) (hn : (l.map (·.id)).Nodup)
+    (hm : ∀ x, x ∈ l ↔ x ∈ l') (a : TblAct) :
+    ((tblStep false l a).map (·.id)).Nodup ∧ ∀ x, x ∈ tblStep false l a ↔ x ∈ tblSpecStep l' a := by
+  cases a with
+  | register i p =>
+    have hany : l.any (·.id == i) = l'.any (·.id == i) := by
+      rw [Bool.eq_iff_iff]
+      simp only [List.any_eq_true]
+      constructor
+      · rintro ⟨x, hx, h⟩; exact ⟨x, (hm x).mp hx, h⟩
+      · rintro ⟨x, hx, h⟩; exact ⟨x, (hm x).mpr hx, h⟩
+    simp only [tblStep, tblSpecStep, ← hany]
+    cases h : l.any (·.id == i)
+    · simp only [Bool.false_eq_true, if_false]
+      refine ⟨?_, fun x => by simp [hm x]⟩
+      rw [List.map_append, List.nodup_append]
+      refine ⟨hn, by simp, ?_⟩
+      intro a ha b hb hab
+      simp only [List.map_cons, List.map_nil, List.mem_singleton] at hb
+      obtain ⟨y, hy, hyi⟩ := List.mem_map.mp ha
+      have : l.any (·.id == i) = true := List.any_eq_true.mpr ⟨y, hy, by simp [hyi, hab, hb]⟩
+      rw [h] at this
+      cases this
+    · simp only [if_true]; exact ⟨hn, hm⟩
+  | remove i =>
+    simp only [tblStep, tblSpecStep, Bool.false_and, Bool.false_eq_true, if_false]
+    cases hf : l.find? (·.id == i) with
+    | none =>
+      refine ⟨hn, fun x => ?_⟩
+      have hnone := List.find?_eq_none.mp hf
+      simp only [List.mem_filter, ← hm x]
+      constructor
+      · intro hx; exact ⟨hx, by simpa using hnone x hx⟩
+      · exact fun h => h.1
+    | some c =>
+      have hc : c ∈ l := List.mem_of_find?_eq_some hf
+      have hci : c.id = i := by simpa using List.find?_some hf
+      refine ⟨C09.removeSwap_nodup l c hc hn, fun x => ?_⟩
+      rw [C09.mem_removeSwap l c hc hn x, List.mem_filter, ← hm x, hci]
+      simp
+
+/-- **the table lists exactly the connections that live** (refinement to a set with insert and
+erase): after any sequence of registrations and removals — any number of connections per peer, in any
+order — a connection is in the table iff it was registered and not removed since; in particular the
+loop of `Router.Stop` over the table closes every connection whose receive loop `Stop` then waits
+for. -/
+theorem c10_table_lists_exactly_the_live (acts : List TblAct) :
+    ((tblRun false [] acts).map (·.id)).Nodup ∧
+    ∀ x, x ∈ tblRun false [] acts ↔ x ∈ tblSpecRun [] acts := by
+  suffices h : ∀ (l l' : List C09.Conn), (l.map (·.id)).Nodup → (∀ x, x ∈ l ↔ x ∈ l') →
+      ((tblRun false l acts).map (·.id)).Nodup ∧ ∀ x, x ∈ tblRun false l acts ↔ x ∈ tblSpecRun l' acts from
+    h [] [] (by simp) (by simp)
+  induction acts with
+  | nil => intro l l' hn hm; exact ⟨hn, hm⟩
+  | cons a as ih =>
+    intro l l' hn hm
+    have := tbl_step_refines l l' hn hm a
+    exact ih _ _ this.1 this.2
+
+/-- the variant that deletes the peer's entry when one connection remains: two connections with
+one peer, the first ends — the table is empty although the second lives; `Stop` closes nothing and
+waits for that connection's receive loop -/
+theorem c10_table_must_keep_the_last_entry :
+    tblRun true [] [.register 0 1, .register 1 1, .remove 0] = [] ∧
+    tblSpecRun [] [.register 0 1, .register 1 1, .remove 0] = [{ id := 1, peer := 1, alive := true }] := by
+  decide
+
+/-- non-vacuity: three connections with one peer and one with another; the first and the third of
+the peer end — its second one and the other peer's are listed -/
+example : (tblRun false [] [.register 0 1, .register 1 1, .register 2 2, .register 3 1, .remove 0, .remove 3]).map (·.id) = [2, 1] := by
+  decide
 
 /-! ### the listeners -/
 
